@@ -1,7 +1,9 @@
 package op
 
 import (
+	"cmp"
 	"errors"
+	"slices"
 
 	"github.com/berquerant/crd/util"
 	"gopkg.in/yaml.v3"
@@ -48,11 +50,15 @@ var (
 	}
 )
 
+// GetDynamicSignStrings lists the dynamic signs from the softest to the loudest.
 func GetDynamicSignStrings() []string {
 	ss := []string{}
 	for k := range stringDynamicSignMap {
 		ss = append(ss, k)
 	}
+	slices.SortFunc(ss, func(a, b string) int {
+		return cmp.Compare(stringDynamicSignMap[a], stringDynamicSignMap[b])
+	})
 	return ss
 }
 
